@@ -71,6 +71,19 @@ CLAIMED['C12'] = dict(
          'InRamPolicySupporter and the policies hosted in the real service are compared with the model on generated histories.'),
    note=BASE_TB + ' The recording designer and the world generator of harness/props/c12.py.',
    technique='Rocq proof (invariant over request histories, pigeonhole on the id set) + vm_compute correspondence', design='5/C12')
+CLAIMED['C05'] = dict(
+   text=('TRANSLATOR + theorems: coq/Gen/SqlShapes.v is regenerated from sql_datastore.py on every run (per method the skeleton of reads, '
+         'writes, _write_or_rollback, commit, rollback, raise, branches, loops, try/except); C05_all_methods_have_atomic_shape re-checks all 20 '
+         'skeletons in the kernel; C05_shape_check_sound proves the abstract check sound for the trace semantics (unbounded loops, caught '
+         'IntegrityErrors); C05_primitive_crash_atomic: for a checked method, after ANY prefix of its SQL activity the durable content is that '
+         'before or that after the call; C05_acknowledged_is_durable; C05_single_resource_rpc_one_mutation: the nine single-resource RPCs '
+         'change the store through at most one primitive in every state (hence all-or-nothing). All closed under the global context. '
+         'Crash harness: child processes killed before every k-th SQL statement/commit of every RPC kind after generated prefixes; a fresh '
+         'server reopens the SQLite file: recovered state must be before/after (single-resource), a prefix of the RPC in the model, satisfy the '
+         'lifecycle invariants, hold no orphans of deleted studies, and clients continue. Known finding: a crash inside SuggestTrials leaves that '
+         "client's operation unfinished (C05-crash-inside-suggest-leaves-operation)."),
+   note=SVC_NOTE + " Trusted: SQLite's atomic commit, SQLAlchemy events as crash points, os._exit as the crash; torn pages / fsync lies are below the model.",
+   technique='Rocq proof (verified abstract interpreter over translator-generated transaction skeletons) + crash-point enumeration', design='5/C05')
 ALL = ['C%02d' % i for i in range(1, 21)]
 m = {
  'version': 1,
